@@ -10,7 +10,7 @@ from vlib import tv
 
 LEVEL = "model_checking"
 SP = os.path.join(SPECS, "dist")
-MPIRUN = ["mpirun", "--allow-run-as-root", "--oversubscribe"]
+MPIRUN = ["mpirun", "--allow-run-as-root", "--oversubscribe", "--bind-to", "none"]
 
 
 def dbin(name):
